@@ -755,7 +755,7 @@ func c05Child(r *ev.Run, batch int) {
 					}
 				}
 			}
-			if batch == 0 && hi < 3 && r.NeedSample() && len(changes) > 1 {
+			if r.NeedSample() && len(changes) > 1 {
 				r.Sample(wit("all three", "all permutations"))
 			}
 			st = next
